@@ -265,3 +265,6 @@ def ORACLE(v, scn, out):
         body = scn['msg'].get('update_params', {})
         return ['unpaused with legacy entries'] if ('ok' in res and body.get('paused') is not True) else []
     return None
+
+from checks import migrate as _migrate
+_migrate.attach(globals(), 'hub')
